@@ -171,9 +171,15 @@ func runC05(r *mc.Run) {
 		dp := c.Choose("root.dps", len(dps))
 		ph := c.Choose("pck.header", 7)
 		opt := c.Choose("options", 3)
-		rk := c.Choose("entry.reason", 9)
-		reason := []int{0, 1, 8, 6, 10, 0, 0, 0, 0}[rk] // none, keyCompromise, removeFromCRL, certificateHold, aACompromise, then entry extensions
-		var entryExts []pkix.Extension
+		rk := c.Choose("entry.reason", 12)
+		reason := []int{0, 1, 8, 6, 10, 0, 0, 0, 0, 0, 0, 0}[rk] // none, keyCompromise, removeFromCRL, certificateHold, aACompromise, then entry extensions
+		var entryExts, firstExts []pkix.Extension
+		// certificateIssuer (2.5.29.29) naming another CA / the CRL issuer's own common name, on the FIRST entry only:
+		// these CRLs are direct ones (no issuingDistributionPoint), so every entry is about the CRL issuer's certificates
+		otherCA := func(cn string, critical bool) []pkix.Extension {
+			name := world.DERSeq(world.DER(0x31, world.DERSeq(world.DER(0x06, []byte{0x55, 0x04, 0x03}), world.DER(0x0c, []byte(cn)))))
+			return []pkix.Extension{{Id: asn1.ObjectIdentifier{2, 5, 29, 29}, Critical: critical, Value: world.DERSeq(world.DER(0xa4, name))}}
+		}
 		switch rk {
 		case 5: // an extension nobody knows, marked critical
 			entryExts = []pkix.Extension{{Id: asn1.ObjectIdentifier{1, 3, 6, 1, 4, 1, 99999, 1}, Critical: true, Value: []byte{0x05, 0x00}}}
@@ -183,6 +189,12 @@ func runC05(r *mc.Run) {
 			entryExts = []pkix.Extension{{Id: asn1.ObjectIdentifier{2, 5, 29, 24}, Value: []byte{0x18, 0x0f, '2', '0', '2', '8', '0', '1', '0', '1', '0', '0', '0', '0', '0', '0', 'Z'}}}
 		case 8: // critical reasonCode
 			entryExts = []pkix.Extension{{Id: asn1.ObjectIdentifier{2, 5, 29, 21}, Critical: true, Value: []byte{0x0a, 0x01, 0x01}}}
+		case 9:
+			firstExts = otherCA("Some Other Issuing CA", true)
+		case 10:
+			firstExts = otherCA("Some Other Issuing CA", false)
+		case 11: // on every entry
+			entryExts = otherCA("Some Other Issuing CA", true)
 		}
 		// revocation date of the entries relative to the verification time: a listed certificate is revoked whenever its entry is dated
 		revAt := []time.Time{{}, world.T0, world.T0.Add(time.Second), world.T0.AddDate(0, 0, 14)}[c.Choose("entry.date", 4)]
@@ -190,8 +202,8 @@ func runC05(r *mc.Run) {
 		if !r.Want(id) {
 			return
 		}
-		pckCrl := world.MakeCRL(world.CRLSpec{Issuer: pckSigners[psg].issuer, Signer: pckSigners[psg].key, Revoked: pckSets[ps].list, Reason: reason, RevokedAt: revAt, EntryExts: entryExts})
-		rootCrl := world.MakeCRL(world.CRLSpec{Issuer: rootSigners[rsg].issuer, Signer: rootSigners[rsg].key, Revoked: rootSets[rs].list, Reason: reason, RevokedAt: revAt, EntryExts: entryExts})
+		pckCrl := world.MakeCRL(world.CRLSpec{Issuer: pckSigners[psg].issuer, Signer: pckSigners[psg].key, Revoked: pckSets[ps].list, Reason: reason, RevokedAt: revAt, EntryExts: entryExts, FirstEntryExts: firstExts})
+		rootCrl := world.MakeCRL(world.CRLSpec{Issuer: rootSigners[rsg].issuer, Signer: rootSigners[rsg].key, Revoked: rootSets[rs].list, Reason: reason, RevokedAt: revAt, EntryExts: entryExts, FirstEntryExts: firstExts})
 		fPck := world.MakeCRL(world.CRLSpec{Issuer: F.Inter, Signer: F.InterKey})
 		fRoot := world.MakeCRL(world.CRLSpec{Issuer: F.Root, Signer: F.RootKey})
 		serve := func(kind string, own, other, f []byte, hdr map[string][]string) world.Response {
